@@ -104,11 +104,17 @@ def main():
         for r in json.load(open(os.path.join(V, "selftest", "reversions.json")))["reversions"]:
             if only and not r["commit"].startswith(only):
                 continue
-            diff = subprocess.run(["git", "-C", REPO, "show", "--format=", r["commit"], "--", "pulser-core", "pulser-simulation"],
-                                  capture_output=True, text=True).stdout
             d = scratch()
             try:
-                ok, msg = apply_patch(d, diff, reverse=True)
+                ok, msg = True, ""
+                # 'with': later repairs that would mask the defect again (a safety net added afterwards) are reverted
+                # first, newest first; then the commit itself
+                for c_ in list(r.get("with", [])) + [r["commit"]]:
+                    diff = subprocess.run(["git", "-C", REPO, "show", "--format=", c_, "--", "pulser-core", "pulser-simulation"],
+                                          capture_output=True, text=True).stdout
+                    ok, msg = apply_patch(d, diff, reverse=True)
+                    if not ok:
+                        break
                 if not ok:
                     print(f"{r['commit']}: reverse patch does not apply: {msg[:200]}")
                     bad += 1
